@@ -21,21 +21,23 @@ func lockInodes(op *fstxn.FsTxn, inums []common.Inum) []*inode.Inode {
 	sort.Slice(sorted, func(i, j int) bool { return sorted[i] < sorted[j] })
 	var inodes = make([]*inode.Inode, len(inums))
 	for _, inm := range sorted {
-		ip := op.GetInodeInum(inm)
+		var ip *inode.Inode
+		if op.OwnInum(inm) {
+			// duplicate in inums; already locked by this transaction
+			ip = op.GetInodeUnlocked(inm)
+		} else {
+			ip = op.GetInodeInum(inm)
+		}
 		if ip == nil {
 			op.Abort()
 			return nil
 		}
-		// put in same position as in inums
-		pos := func(inm common.Inum) int {
-			for i, v := range inums {
-				if v == inm {
-					return i
-				}
+		// put in same position(s) as in inums
+		for i, v := range inums {
+			if v == inm {
+				inodes[i] = ip
 			}
-			panic("func")
-		}(inm)
-		inodes[pos] = ip
+		}
 	}
 	return inodes
 }
